@@ -664,6 +664,152 @@ func c14RandomPart(e *env) {
 	}
 }
 
+// ---- aliasing: results of accessors that document a copy must not alias the ring's state ----
+
+// c14PartObs: everything C14 observes on a partition ring, as one string.
+func c14PartObs(pr *ring.PartitionRing, pids []int32, keys []uint32) string {
+	var b []string
+	for _, pid := range pids {
+		tr, err := pr.GetTokenRangesForPartition(pid)
+		b = append(b, itoa(int(pid))+"="+c14Ranges(tr, err)+"/"+c14Bits(tr, err, keys)+"/"+strings.Join(pr.PartitionOwnerIDsCopy(pid), "+"))
+	}
+	owners := make([]string, len(keys))
+	for i, k := range keys {
+		p, err := pr.ActivePartitionForKey(k)
+		if err != nil {
+			owners[i] = "!"
+		} else {
+			owners[i] = itoa(int(p))
+		}
+	}
+	ids := func(xs []int32) string {
+		o := make([]string, len(xs))
+		for i, x := range xs {
+			o[i] = itoa(int(x))
+		}
+		return strings.Join(o, "+")
+	}
+	return strings.Join(b, ";") + "|" + strings.Join(owners, ",") + "|" + ids(pr.PartitionIDs()) + "|" + ids(pr.ActivePartitionIDs())
+}
+
+// c14Scribble overwrites, in place, every accessor result of pr that is documented as a copy the caller may modify.
+func c14Scribble(pr *ring.PartitionRing, pids []int32) {
+	for _, p := range pr.Partitions() { // "The returned slice is a deep copy, so the caller can freely manipulate it."
+		for i, j := 0, len(p.Tokens)-1; i < j; i, j = i+1, j-1 {
+			p.Tokens[i], p.Tokens[j] = p.Tokens[j], p.Tokens[i]
+		}
+		for i := range p.Tokens {
+			p.Tokens[i] += 7
+		}
+	}
+	for _, xs := range [][]int32{pr.PartitionIDs(), pr.PendingPartitionIDs(), pr.ActivePartitionIDs(), pr.InactivePartitionIDs()} {
+		for i := range xs {
+			xs[i] = 999
+		}
+	}
+	for _, pid := range pids {
+		for _, ss := range [][]string{pr.PartitionOwnerIDsCopy(pid), pr.MultiPartitionOwnerIDs(pid, nil)} {
+			for i := range ss {
+				ss[i] = "scribbled"
+			}
+		}
+		if tr, err := pr.GetTokenRangesForPartition(pid); err == nil {
+			for i := range tr {
+				tr[i] = 0
+			}
+		}
+	}
+}
+
+// C14.alias <pdesc> <pids> <keys> || <observation before scribbling> <observation after scribbling>
+func c14Aliasing(e *env) {
+	r := newRng(e.seed, 1407)
+	n := 400 * e.scale
+	for c := 0; c < n; c++ {
+		np := 1 + r.intn(5)
+		d := ring.NewPartitionRingDesc()
+		used := map[uint32]bool{}
+		var toks []uint32
+		var pids []int32
+		for k := 0; k < np; k++ {
+			id := int32(k)
+			st := pick(r, []ring.PartitionState{ring.PartitionActive, ring.PartitionActive, ring.PartitionActive, ring.PartitionInactive, ring.PartitionPending})
+			p := ring.PartitionDesc{Id: id, State: st, StateTimestamp: 10}
+			for j, nt := 0, 1+r.intn(4); j < nt; j++ {
+				for tries := 0; tries < 50; tries++ {
+					t := r.u32()
+					if r.chance(1, 2) {
+						t = pick(r, boundaryTokens)
+					}
+					if used[t] {
+						continue
+					}
+					used[t] = true
+					p.Tokens = append(p.Tokens, t)
+					break
+				}
+			}
+			sort.Slice(p.Tokens, func(a, b int) bool { return p.Tokens[a] < p.Tokens[b] })
+			toks = append(toks, p.Tokens...)
+			d.Partitions[id] = p
+			pids = append(pids, id)
+			for o, no := 0, r.intn(3); o < no; o++ {
+				d.Owners["ing-"+itoa(o)+"/"+itoa(k)] = ring.OwnerDesc{OwnedPartition: id, State: ring.OwnerActive, UpdatedTimestamp: 10}
+			}
+		}
+		descStr := c14EncPDesc(d) // encoded before anything can touch it
+		pr, err := ring.NewPartitionRing(*d)
+		if err != nil {
+			panic(err)
+		}
+		keys := c14Keys(r, toks, 8, 2)
+		before := c14PartObs(pr, pids, keys)
+		c14Scribble(pr, pids)
+		if sub, err := pr.ShuffleShard("tenant-"+itoa(r.intn(3)), 1+r.intn(np)); err == nil { // sub-rings share the descriptors
+			c14Scribble(sub, pids)
+		}
+		after := c14PartObs(pr, pids, keys)
+		ps := make([]string, len(pids))
+		for i, p := range pids {
+			ps[i] = itoa(int(p))
+		}
+		e.emit("C14.alias", descStr, strings.Join(ps, ","), u32s(keys), before, after)
+	}
+	// instance ring: the TokenRanges a caller received are its own
+	for c := 0; c < n/2; c++ {
+		o := ringGenOpts{maxInst: 2 + r.intn(4), maxTokens: 1 + r.intn(4), zones: []string{"a", "b"}[:1+r.intn(2)], now: c14Heartbeat, uniqueTokens: true,
+			smallTokenSpace: true, states: []ring.InstanceState{ring.ACTIVE}}
+		d := genDesc(r, o)
+		for id, i := range d.Ingesters {
+			i.Timestamp, i.RegisteredTimestamp = c14Heartbeat, 0
+			d.Ingesters[id] = i
+		}
+		rf := c14Zones(d)
+		rg, err := ring.VerifNewRing(ring.Config{HeartbeatTimeout: time.Hour, ReplicationFactor: rf, ZoneAwarenessEnabled: true}, cloneDesc(d), nil)
+		if err != nil {
+			panic(err)
+		}
+		ids := c14SortedIDs(d)
+		obs := func() string {
+			ps := make([]string, len(ids))
+			for i, id := range ids {
+				tr, err := rg.GetTokenRangesForInstance(id)
+				ps[i] = id + "=" + c14Ranges(tr, err)
+			}
+			return strings.Join(ps, ";")
+		}
+		before := obs()
+		for _, id := range ids {
+			if tr, err := rg.GetTokenRangesForInstance(id); err == nil {
+				for i := range tr {
+					tr[i] = 12345
+				}
+			}
+		}
+		e.emit("C14.ialias", encDesc(d), "1,"+itoa(rf), "-", before, obs())
+	}
+}
+
 // direct IncludesKey cases on sorted range lists with duplicates and degenerate ranges
 func c14Includes(e *env) {
 	r := newRng(e.seed, 1405)
@@ -698,4 +844,5 @@ func runC14(e *env) {
 	c14RandomPart(e)
 	c14Includes(e)
 	c14Subrings(e)
+	c14Aliasing(e)
 }
